@@ -74,6 +74,9 @@ add("mw_rdall_g", ["C06"], "q", progs=[P("L", mwt(1), "U"), P("G1", "R", "RU", "
 add("wn_in", ["C04", "C11", "C13"], "q", progs=[P("L", wnl(v=1, dl=1), "U"), P("L", "set11", "S", "U")], NV=1, MaxNow=1)
 add("wn_after", ["C04", "C11", "C13"], "q", progs=[P("L", wnl(v=1, dl=1), "U"), P("L", "set11", "U", "S")], NV=1, MaxNow=1)
 add("wn_nodl", ["C04", "C11"], "q", progs=[P("L", wnl(v=1), "U"), P("L", "set11", "U", "B")], NV=1)
+# contention on the cv's spinlock while registering: a signaller that does not hold the mutex / two reader-mode waiters
+add("wn_spin", ["C04", "C11"], "q", progs=[P("L", wnl(v=1, dl=1), "U"), P("S")], NV=1, MaxNow=1)
+add("cv_2rd", ["C04", "C01"], "q", progs=[P("R", cvw(dl=1), "RU"), P("R", cvw(dl=1), "RU")], NV=1, MaxNow=1)
 add("wn_mixed", ["C04", "C11", "C13"], "t", progs=[P("L", wnl(v=1, dl=1), "U"), P("L", cvl(v=1), "U"), P("L", "set11", "U", "B")], NV=1, MaxNow=1)
 # ---- conditional critical sections (C06 C05 C01) ----
 add("mw_1", ["C06"], "q", progs=[P("L", mwt(1), "U"), P("L", "set11", "U")], NV=1, conds=C1)
